@@ -535,6 +535,32 @@ pub static OPS: &[Op] = &[
         (format!("{} {} {:?} {:?}", show_d(n.duration), show_d(p.duration), n.time_scale, p.time_scale),
          format!("{} {} {:?} {:?}", show_total(a[0].total() + kn * DAY_NS), show_total(a[0].total() - kp * DAY_NS), a[1].ts(), a[1].ts()))
     }},
+    // next/previous weekday at midnight / noon: 00:00 / 12:00 of the day next()/previous() lands in (results at or after the
+    // scale's reference epoch; before it with_hms_strict rounds the magnitude, which the property does not speak about)
+    Op { name: "epoch_weekday_at", sig: &[Ty::Dur, Ty::UTs, Ty::Wd], pre: |a| conv_ok(a[0].total(), a[1].ts(), TimeScale::TAI) && a[0].total() >= 8 * DAY_NS && a[0].total() < 30_000 * NPC, f: |a| {
+        let e = Epoch::from_duration(a[0].dur(), a[1].ts());
+        let tai = a[0].total() + scale_zero(a[1].ts()).unwrap();
+        let cur = tai.div_euclid(DAY_NS).rem_euclid(7);
+        let want = u8::from(a[2].wd()) as i128;
+        let kn = if (want - cur).rem_euclid(7) == 0 { 7 } else { (want - cur).rem_euclid(7) };
+        let kp = if (cur - want).rem_euclid(7) == 0 { 7 } else { (cur - want).rem_euclid(7) };
+        let (n, p) = (a[0].total() + kn * DAY_NS, a[0].total() - kp * DAY_NS);
+        let w = a[2].wd();
+        let got = [e.next_weekday_at_midnight(w), e.next_weekday_at_noon(w), e.previous_weekday_at_midnight(w), e.previous_weekday_at_noon(w)];
+        let exp = [n.div_euclid(DAY_NS) * DAY_NS, n.div_euclid(DAY_NS) * DAY_NS + DAY_NS / 2, p.div_euclid(DAY_NS) * DAY_NS, p.div_euclid(DAY_NS) * DAY_NS + DAY_NS / 2];
+        (got.iter().map(|g| format!("{} {:?}", show_d(g.duration), g.time_scale)).collect::<Vec<_>>().join(" | "),
+         exp.iter().map(|x| format!("{} {:?}", show_total(clamp(*x)), a[1].ts())).collect::<Vec<_>>().join(" | "))
+    }},
+    Op { name: "epoch_with_hms", sig: &[Ty::Dur, Ty::UTs, Ty::U8, Ty::U8, Ty::U8], pre: always, f: |a| {
+        let e = Epoch::from_duration(a[0].dur(), a[1].ts());
+        let t = a[0].total();
+        let (h, m, s) = (a[2].int(), a[3].int(), a[4].int());
+        let base = (t.abs() / DAY_NS) * DAY_NS + h * 3_600_000_000_000 + m * 60_000_000_000 + s * 1_000_000_000;
+        let sg = if t < 0 { -1 } else { 1 };
+        let (x, y) = (e.with_hms_strict(h as u64, m as u64, s as u64), e.with_hms(h as u64, m as u64, s as u64));
+        (format!("{} {:?} | {} {:?}", show_d(x.duration), x.time_scale, show_d(y.duration), y.time_scale),
+         format!("{} {:?} | {} {:?}", show_total(clamp(sg * base)), a[1].ts(), show_total(clamp(sg * (base + t.abs() % 1_000_000_000))), a[1].ts()))
+    }},
 ];
 
 /// the Gregorian fields of an epoch in its own time scale, through the public API
